@@ -46,12 +46,12 @@ def _feed(harness, lines, timeout):
         return out.splitlines(), "timeout"
 
 
-def _worker(harness, items, timeout):
+def _worker(harness, items, timeout, modes="poison,quarantine"):
     """items: [(name, file, tracebase)] -> [(name, dict)]"""
     out = []
     todo = list(items)
     while todo:
-        lines = ["%s %s" % (f, t) for _, f, t in todo]
+        lines = ["%s %s 400000 %s" % (f, t, modes) for _, f, t in todo]
         got, err = _feed(harness, lines, timeout * max(1, len(todo)))
         for (name, _, _), l in zip(todo, got):
             try:
@@ -70,7 +70,7 @@ def _worker(harness, items, timeout):
     return out
 
 
-def run_programs(ctx, harness, progs, trace=True, workers=8, timeout=600):
+def run_programs(ctx, harness, progs, trace=True, workers=8, timeout=600, modes="poison,quarantine"):
     d = os.path.join(ctx.tmp, "progs")
     os.makedirs(d, exist_ok=True)
     items = []
@@ -83,7 +83,7 @@ def run_programs(ctx, harness, progs, trace=True, workers=8, timeout=600):
     chunks = [items[i::workers] for i in range(workers)]
     res = {}
     with cf.ThreadPoolExecutor(workers) as ex:
-        for part in ex.map(lambda c: _worker(harness, c, timeout), [c for c in chunks if c]):
+        for part in ex.map(lambda c: _worker(harness, c, timeout, modes), [c for c in chunks if c]):
             for name, r in part:
                 res[name] = r
     for name, f, t in items:
